@@ -413,7 +413,7 @@ class Check(Property):
                         r2 = r ** conv_exp(t, s)
                         if exps(r2) != {k: x * rr * s for k, x in A.items() if x * rr * s != 0}:
                             v.append(f"{tag}: (u**a)**b != u**(a*b) for b={s}")
-                    if all(x.denominator == 1 for x in A.values()) and A:
+                    if all(x.denominator == 1 for x in A.values()) and A and layer != "ph" and t in ("float", "int"):
                         # exact rational exponents stay exact whatever the container's own numeric type
                         for fa_, fb_ in ((Fraction(1, 10), 3), (Fraction(1, 3), 2), (Fraction(2, 7), 5)):
                             try:
